@@ -125,7 +125,7 @@ impl Prop for C17 {
                 }
             }
         }
-        let core = tier.pick(10, 16);
+        let core = tier.pick(10, 40);
         for i in 0..core {
             for j in 0..core {
                 for k in 0..core {
@@ -135,7 +135,7 @@ impl Prop for C17 {
                 }
             }
         }
-        let (pm, qm) = tier.pick((60, 24), (200, 60));
+        let (pm, qm) = tier.pick((60, 24), (2000, 200));
         for q in 1..=qm {
             sink(Case::new("rational-row", format!("{pm}/{q}")));
         }
@@ -358,6 +358,6 @@ impl Prop for C17 {
         }
     }
     fn bounds(&self, tier: Tier) -> serde_json::Value {
-        serde_json::json!({"derived_units": all_statics().len(), "base_units": 8, "powers": "-3..3", "prefixes": 21, "rational_grid": tier.pick("60/24", "200/60"), "constants": refdb::constants().len()})
+        serde_json::json!({"derived_units": all_statics().len(), "base_units": 8, "powers": "-3..3", "prefixes": 21, "rational_grid": tier.pick("60/24", "2000/200"), "triple_core": tier.pick(10, 40), "constants": refdb::constants().len()})
     }
 }
